@@ -16,15 +16,15 @@ import (
 // Scenario is a generated chain history: a factory node F that mines as any deputy, a validator V that receives every
 // block as bytes, a transaction generator and the list of blocks so far.
 type Scenario struct {
-	W       *World
-	F, V    *Node
-	Gen     *TxGen
-	Blocks  []*types.Block      // every block mined, in order
-	Offered map[common.Hash][]*GenTx // block hash -> candidate list the miner was given
-	Packaged map[common.Hash]bool // transactions (and box sub transactions) on the chain so far: a pool would not offer them again
-	Keys    Keys                // key universe harvested from change logs
-	Addrs   map[common.Address]bool
-	History []string
+	W        *World
+	F, V     *Node
+	Gen      *TxGen
+	Blocks   []*types.Block           // every block mined, in order
+	Offered  map[common.Hash][]*GenTx // block hash -> candidate list the miner was given
+	Packaged map[common.Hash]bool     // transactions (and box sub transactions) on the chain so far: a pool would not offer them again
+	Keys     Keys                     // key universe harvested from change logs
+	Addrs    map[common.Address]bool
+	History  []string
 }
 
 // Funding is how much each user gets in block 1 (whole LEMO). Users 0 and 1 can afford a candidate deposit.
